@@ -147,7 +147,7 @@ def run_custom(form, hide, hide_line, prune, elab_kind):
     calls = []
     def elab(frame, nxt):
         calls.append(1)
-        return None if elab_kind == "none" else ()
+        return None if elab_kind == "none" else ([] if elab_kind == "empty-list" else ())
     kw = dict(hide=hide, hide_line=hide_line, prune=prune)
     if elab_kind != "absent":
         kw["elaborate"] = elab
@@ -176,9 +176,55 @@ def run_custom(form, hide, hide_line, prune, elab_kind):
 
 for form in ("direct", "decorator"):
     for hide, hl, pr in itertools.product([False, True], repeat=3):
-        for ek in ("absent", "none", "replace"):
+        for ek in ("absent", "none", "replace", "empty-list"):
             leg.case(("customize", form, hide, hl, pr, ek), True, sample=dict(form=form, hide=hide, hide_line=hl, prune=pr, elaborate=ek) if (hide and not pr and ek == "none") else None)
             bad = run_custom(form, hide, hl, pr, ek)
             if bad:
                 leg.violation(("customize", form, hide, hl, pr, ek), f"options without effect: {bad}")
+
+# the same options through the extract_outermost entry point (the returned frame alone must carry them), on a suspended generator
+for form in ("direct", "decorator"):
+    for hide, hl in itertools.product([False, True], repeat=2):
+        calls = []
+        def elab(frame, nxt): calls.append(1); return None
+        if form == "direct":
+            def gtarget(): yield
+            stackscope.customize(gtarget, hide=hide, hide_line=hl, elaborate=elab)
+        else:
+            @stackscope.customize(hide=hide, hide_line=hl, elaborate=elab)
+            def gtarget(): yield
+        g = gtarget(); next(g)
+        key = ("customize-outermost", form, hide, hl)
+        leg.case(key, True)
+        try:
+            fr = stackscope.extract_outermost(g)
+            if fr.hide != hide or fr.hide_line != hl or not calls:
+                leg.violation(key, f"extract_outermost returned a frame without its customisation: hide={fr.hide} hide_line={fr.hide_line} elaborate called={bool(calls)}")
+        except Exception as e:
+            leg.violation(key, f"extract_outermost raised {e!r}")
+        g.close()
+
+# a customised frame whose CONTEXT ANALYSIS fails still gets its options, and its callees stay (the failure is only recorded)
+import stackscope._extract as _E
+for hide, pr in itertools.product([False, True], repeat=2):
+    key = ("customize-with-failing-context-analysis", hide, pr)
+    leg.case(key, True)
+    def leafgen(): yield
+    def midgen(): yield from leafgen()
+    stackscope.customize(midgen, hide=hide, prune=pr)
+    g = midgen(); next(g)
+    orig = _E.contexts_active_in_frame
+    def failing(frame, *a, **k):
+        if frame.f_code is midgen.__code__: raise KeyError("context analysis failed on the customised frame")
+        return orig(frame, *a, **k)
+    _E.contexts_active_in_frame = failing
+    try:
+        st = stackscope.extract(g)
+    finally:
+        _E.contexts_active_in_frame = orig
+    names = [f.funcname for f in st.frames]
+    fr = [f for f in st.frames if f.funcname == "midgen"]
+    if not fr or fr[0].hide != hide or ("leafgen" in names) == pr or st.error is None:
+        leg.violation(key, f"frames={names} hide={[f.hide for f in fr]} (want {hide}), callee kept={'leafgen' in names} (want {not pr}), error={st.error!r}")
+    g.close()
 leg.finish(exhaustive=True)
